@@ -67,10 +67,11 @@ Example C20_nonvacuous :
   let evs := [EPut o3 [49]; ELoadOk; EPut o4 [50]; EWatchStart; EDeliver 1%nat;
               EStreamClosed; EPut o3 [50]; ELoadFail; EWatchStart; EDeliver 1%nat;
               EStreamClosed; ETxn [KDel o3; KDel o4]; EPut o4 [51]; ECompact; ECompact; ELoadFail;
-              EWatchStart; ELoadOk; EWatchStart] in
+              EWatchStart; ELoadOk; EWatchStart; EStreamClosed; EDel o4; ECompactAt 8%nat; ELoadFail;
+              EWatchStart; EDeliver 1%nat] in
   Forall (good_event canonical) evs /\
   exists w, run rk_part true init evs = Some w /\ quiescentb w = true /\
-    r_routes (w_router w) = [([111;114;100;101;114;115;58;52], [51])].
+    r_routes (w_router w) = [].
 Proof.
   split.
   - repeat constructor.
